@@ -142,7 +142,7 @@ def main():
                 missing = {x for x in missing if x not in r['functions'] and x.split('::')[-1] not in getattr(verus.generate, 'skipped', [])}
                 if missing:
                     undecided.append('unit %s: functions named in the registry are not in the unit: %s' % (u, sorted(missing)))
-            lemma_fns = [n for n, f in r['functions'].items() if f.get('mode') == 'proof']
+            lemma_fns = [n for n, f in r['functions'].items() if f.get('mode') == 'proof' and not n.split('::')[-1].startswith('axiom_')]
             wanted = [m['qual'] for m in in_filter] + (lemma_fns if (filt is None or P.get('count_lemmas', True)) else [])
             exp_unit = set(expected.get(u, []))
             for q in wanted:
